@@ -1631,6 +1631,12 @@ pub fn eval_ternary_equality(lhs: &Value, rhs: &Value) -> Option<bool> {
     Value::Context(ls) => match rhs {
       Value::Context(rs) => {
         if ls.keys().len() == rs.keys().len() {
+          for key1 in ls.keys() {
+            if !rs.contains_entry(key1) {
+              // there is no such key in the right-side context
+              return Some(false);
+            }
+          }
           for (key1, value1) in ls.deref() {
             if let Some(value2) = rs.get_entry(key1) {
               if let Some(equal) = eval_ternary_equality(value1, value2) {
